@@ -105,7 +105,10 @@ func c06LastLeaves(c *core.Ctx) {
 	for i := 0; i < k; i++ {
 		guard("Add(1)", func() { ps.Add(1) })
 	}
-	const v1, v2 = 71, 72
+	v1, v2 := 71, 72
+	if c.Rng.IntN(2) == 0 {
+		v1 = 0 // the zero value is a value like any other
+	}
 	n1, n2 := -1, -1
 	send1 := core.Go(func() { guard("Send", func() { n1 = ps.Send(v1) }) })
 	window := core.WaitUntil(3000, func() bool { return p.Hits("caster.send.armed") >= 1 })
